@@ -326,7 +326,7 @@ def diagnose(run_lines, wd, tag):
         f.write("\n".join(run_lines) + "\n")
     try:
         consumed, n, sets, r = _tlc_trace(path, os.path.join(SPEC, "MQAbsTraceDiag.cfg"),
-                                          os.path.join(wd, "diag_%s.tlc" % tag), timeout=300)
+                                          os.path.join(wd, "diag_%s.tlc" % tag), timeout=40)
     except ToolError as e:
         return {"ids": [], "raw": str(e), "complete": False}
     ids = sorted(set(re.findall(r'"(C[0-9C]+)"', sets)))
@@ -379,8 +379,13 @@ class Verdict:
         self.notes = []
         self.known = load_known()
 
+    MAX_JUDGED = 10
+
     def judge_rejected(self, rej, wd, scheds_by_run=None, scenarios_by_name=None, source=""):
         """rej: entry of validate_*()['rejected']"""
+        if len(self.violations) >= self.MAX_JUDGED:
+            self.unjudged = getattr(self, "unjudged", 0) + 1
+            return
         lines = rej["lines"]
         hdr = run_header(lines)
         scn = hdr.get("scn", "")
